@@ -88,6 +88,6 @@ def int_ids(df):
     for c in ID_COLUMNS:
         if c in out.columns:
             v = out[c].to_numpy()
-            if v.dtype.kind == "f" and np.all(np.isfinite(v)) and np.all(v == np.rint(v)):
+            if v.dtype.kind == "f" and np.all(np.isfinite(v)) and np.all(np.abs(v) < 2.0 ** 53) and np.all(v == np.rint(v)):
                 out[c] = v.astype("int64")
     return out
